@@ -11,6 +11,15 @@ from props import linop_common
 from vlib import core
 
 
+def has_single_precision_leaf(A):
+    """does the operator graph contain a leaf that computes a real-dtype input in single precision (fft-based ones)?"""
+    n = type(A).__name__
+    if any(w in n for w in ("FFT", "NUFFT", "Wavelet", "Interpolate", "Gridding")):
+        return True
+    subs = list(getattr(A, "linops", [])) + ([A.A] if hasattr(A, "A") and n == "Conj" else [])
+    return any(has_single_precision_leaf(a) for a in subs)
+
+
 def layouts(a, rng):
     """the same values in different memory layouts (all writable)"""
     out = [("C", np.ascontiguousarray(a.copy()))]
@@ -204,7 +213,7 @@ def run(ctx):
             ctx.count("C02:real-dtype:" + kind, key=(kind, repr(B)[:120], k), sample={"kind": kind, "operator": repr(B)[:160]})
             o_r, o_c = np.asarray(B(xr)), np.asarray(B(xc))
             # fft / nufft compute a real-dtype input in complex64 BY DESIGN: single-precision tolerance for trees that contain them
-            single = any(w in repr(B) for w in ("FFT", "NUFFT", "Wavelet", "Interpolate", "Gridding"))
+            single = has_single_precision_leaf(B)     # (repr of a stack does not show its blocks: walk the graph)
             t1, t2 = (3e-4, 3e-4) if single else (1e-10, 1e-9)
             sc = 1 + (float(np.abs(o_c).max()) if o_c.size else 0.0)
             if o_r.shape != o_c.shape or not np.allclose(o_r, o_c, rtol=t1, atol=t1 * sc):
